@@ -629,45 +629,60 @@ pub fn text_value_from_type2<'a>(cddl: &'a CDDL, t2: &'a Type2<'a>) -> Option<&'
 
 /// Unwrap array, map or tag type rule from ident
 pub fn unwrap_rule_from_ident<'a>(cddl: &'a CDDL, ident: &Identifier) -> Option<&'a Rule<'a>> {
-  cddl.rules.iter().find_map(|r| match r {
-    Rule::Type {
-      rule:
-        TypeRule {
-          name,
-          is_type_choice_alternate,
-          value: Type { type_choices, .. },
-          ..
-        },
-      ..
-    } if name == ident && !is_type_choice_alternate => {
-      let match_fn = |tc: &TypeChoice| {
-        matches!(
-          tc.type1.type2,
-          Type2::Map { .. } | Type2::Array { .. } | Type2::TaggedData { .. }
-        )
-      };
+  // `followed` holds the alias names already taken on the way, so a reference
+  // cycle (`b = b`, `b = c`, `c = b`) ends the search instead of recursing forever
+  fn find<'a>(
+    cddl: &'a CDDL,
+    ident: &Identifier,
+    followed: &mut Vec<&'a str>,
+  ) -> Option<&'a Rule<'a>> {
+    cddl.rules.iter().find_map(|r| match r {
+      Rule::Type {
+        rule:
+          TypeRule {
+            name,
+            is_type_choice_alternate,
+            value: Type { type_choices, .. },
+            ..
+          },
+        ..
+      } if name == ident && !is_type_choice_alternate => {
+        let match_fn = |tc: &TypeChoice| {
+          matches!(
+            tc.type1.type2,
+            Type2::Map { .. } | Type2::Array { .. } | Type2::TaggedData { .. }
+          )
+        };
 
-      if type_choices.iter().any(match_fn) {
-        Some(r)
-      } else if let Some(ident) = type_choices.iter().find_map(|tc| {
-        if let Type2::Typename {
-          ident,
-          generic_args: None,
-          ..
-        } = &tc.type1.type2
-        {
-          Some(ident)
+        if type_choices.iter().any(match_fn) {
+          Some(r)
+        } else if let Some(ident) = type_choices.iter().find_map(|tc| {
+          if let Type2::Typename {
+            ident,
+            generic_args: None,
+            ..
+          } = &tc.type1.type2
+          {
+            Some(ident)
+          } else {
+            None
+          }
+        }) {
+          if followed.contains(&name.ident) {
+            return None;
+          }
+
+          followed.push(name.ident);
+          find(cddl, ident, followed)
         } else {
           None
         }
-      }) {
-        unwrap_rule_from_ident(cddl, ident)
-      } else {
-        None
       }
-    }
-    _ => None,
-  })
+      _ => None,
+    })
+  }
+
+  find(cddl, ident, &mut Vec::new())
 }
 
 /// Find non-group choice alternate rule from a given identifier
@@ -756,33 +771,52 @@ pub fn type_choices_from_group_choice<'a>(
   cddl: &'a CDDL,
   grpchoice: &GroupChoice<'a>,
 ) -> Vec<TypeChoice<'a>> {
-  let mut type_choices = Vec::new();
-  for ge in grpchoice.group_entries.iter() {
-    match &ge.0 {
-      GroupEntry::ValueMemberKey { ge, .. } => {
-        type_choices.append(&mut ge.entry_type.type_choices.clone());
-      }
-      GroupEntry::TypeGroupname { ge, .. } => {
-        // TODO: parse generic args
-        if let Some(r) = rule_from_ident(cddl, &ge.name) {
-          match r {
-            Rule::Type { rule, .. } => type_choices.append(&mut rule.value.type_choices.clone()),
-            Rule::Group { rule, .. } => type_choices.append(&mut type_choices_from_group_choice(
-              cddl,
-              &GroupChoice::new(vec![rule.entry.clone()]),
-            )),
+  // `expanding` holds the group rules being expanded, so a group that refers to
+  // itself (`b = (? int, b)`) is expanded once instead of forever
+  fn collect<'a>(
+    cddl: &'a CDDL,
+    grpchoice: &GroupChoice<'a>,
+    expanding: &mut Vec<&'a str>,
+  ) -> Vec<TypeChoice<'a>> {
+    let mut type_choices = Vec::new();
+    for ge in grpchoice.group_entries.iter() {
+      match &ge.0 {
+        GroupEntry::ValueMemberKey { ge, .. } => {
+          type_choices.append(&mut ge.entry_type.type_choices.clone());
+        }
+        GroupEntry::TypeGroupname { ge, .. } => {
+          // TODO: parse generic args
+          if let Some(r) = rule_from_ident(cddl, &ge.name) {
+            match r {
+              Rule::Type { rule, .. } => type_choices.append(&mut rule.value.type_choices.clone()),
+              Rule::Group { rule, .. } => {
+                if expanding.contains(&rule.name.ident) {
+                  continue;
+                }
+
+                expanding.push(rule.name.ident);
+                type_choices.append(&mut collect(
+                  cddl,
+                  &GroupChoice::new(vec![rule.entry.clone()]),
+                  expanding,
+                ));
+                expanding.pop();
+              }
+            }
+          }
+        }
+        GroupEntry::InlineGroup { group, .. } => {
+          for gc in group.group_choices.iter() {
+            type_choices.append(&mut collect(cddl, gc, expanding));
           }
         }
       }
-      GroupEntry::InlineGroup { group, .. } => {
-        for gc in group.group_choices.iter() {
-          type_choices.append(&mut type_choices_from_group_choice(cddl, gc));
-        }
-      }
     }
+
+    type_choices
   }
 
-  type_choices
+  collect(cddl, grpchoice, &mut Vec::new())
 }
 
 /// Does `is_kind` hold for `ident` or for a type name reachable from it through
